@@ -151,11 +151,17 @@ impl Interpreter {
             }
             OpCodes::OP_PICK => {
                 let index = state.stack.pop_number()?;
+                if index < 0 || index as usize >= state.stack.len() {
+                    return Err(InterpreterError::InvalidStackOperation("OP_PICK index is out of range"));
+                }
                 let selected_item = state.stack.get((state.stack.len() - 1) - index as usize).cloned().ok_or(InterpreterError::NumberOutOfRange)?;
                 state.stack.push_bytes(selected_item);
             }
             OpCodes::OP_ROLL => {
                 let index = state.stack.pop_number()?;
+                if index < 0 || index as usize >= state.stack.len() {
+                    return Err(InterpreterError::InvalidStackOperation("OP_ROLL index is out of range"));
+                }
                 let selected_item = state.stack.remove((state.stack.len() - 1) - index as usize);
                 state.stack.push_bytes(selected_item);
             }
